@@ -27,7 +27,7 @@ from .engine import VERIF
 LEVEL = "other"
 
 
-def header_count_ok(tab):
+def header_count_ok(tab, none_aliases=()):
     """the length passed to serialize_map(Some(n)) / serialize_struct(_, _, n) is
     (#unconditional members) + sum(if P(&self.f) {0} else {1}) over exactly the guarded members"""
     if "count_ok" in tab["header"]:
@@ -65,7 +65,7 @@ def header_count_ok(tab):
         if t.get("k") == "if" and "else" in t:
             c = H.strip_block(t["cond"])
             a, b = H.lit(t["then"]), H.lit(t["else"])
-            if c.get("callee") == T.IS_NONE and a == 0 and b == 1:
+            if (c.get("callee") == T.IS_NONE or c.get("callee") in none_aliases) and a == 0 and b == 1:
                 f = H.self_field(H.call_args(c)[0])
                 if f:
                     fields.append(f)
@@ -152,7 +152,7 @@ def run(ctx):
                                "%s.%s is not an Option but is emitted conditionally (%s): a set member can be dropped" % (path, m["field"], m["guard"] and m["guard"]["pred"]), cfg=cfg, where=H.line(m["node"]), nontrivial=False)
             for f in tab["never"]:
                 ctx.oblige("C02|dropped-field|%s|%s" % (path, f), (path, f) in documented_never, "%s.%s is never emitted" % (path, f), cfg=cfg, where=tab["fn"]["sp"], nontrivial=False)
-            ok, msg = header_count_ok(tab)
+            ok, msg = header_count_ok(tab, W.is_none_aliases(F))
             ctx.oblige("C02|count|" + path, ok, "%s: %s — the map header would announce the wrong number of members" % (path, msg), cfg=cfg, where=tab["fn"]["sp"])
             ctx.oblige("C02|ended|" + path, tab["ended"], "%s does not finish its map" % path, cfg=cfg, nontrivial=False)
             keys = [m["key"] for m in tab["members"]]
